@@ -53,9 +53,49 @@ theorem keyLe_antisymm (a b : Atom) : keyLe a b = true → keyLe b a = true → 
 
 abbrev Sorted (l : List Atom) : Prop := l.Pairwise (fun a b => keyLe a b = true)
 
-theorem sort_perm (l : List Atom) : (sortMembers l).Perm l := List.mergeSort_perm l keyLe
-theorem sort_sorted (l : List Atom) : Sorted (sortMembers l) :=
-  List.pairwise_mergeSort keyLe_trans keyLe_total l
+theorem insertKey_perm (a : Atom) (l : List Atom) : (insertKey a l).Perm (a :: l) := by
+  induction l with
+  | nil => exact List.Perm.refl _
+  | cons b t ih =>
+    unfold insertKey
+    split
+    · exact List.Perm.refl _
+    · exact (List.Perm.cons b ih).trans (List.Perm.swap a b t)
+
+theorem insertKey_sorted (a : Atom) {l : List Atom} (h : Sorted l) : Sorted (insertKey a l) := by
+  induction l with
+  | nil => simp [insertKey, Sorted]
+  | cons b t ih =>
+    unfold insertKey
+    have hb := List.pairwise_cons.mp h
+    split
+    · rename_i hab
+      refine List.pairwise_cons.mpr ⟨?_, h⟩
+      intro x hx
+      rcases List.mem_cons.mp hx with rfl | hx
+      · exact hab
+      · exact keyLe_trans a b x hab (hb.1 x hx)
+    · rename_i hab
+      have hba : keyLe b a = true := by
+        have := keyLe_total a b
+        simp only [Bool.or_eq_true] at this
+        rcases this with h1 | h1
+        · exact absurd h1 hab
+        · exact h1
+      refine List.pairwise_cons.mpr ⟨?_, ih hb.2⟩
+      intro x hx
+      rcases List.mem_cons.mp ((insertKey_perm a t).mem_iff.mp hx) with rfl | hx
+      · exact hba
+      · exact hb.1 x hx
+
+theorem sort_perm (l : List Atom) : (sortMembers l).Perm l := by
+  induction l with
+  | nil => exact List.Perm.refl _
+  | cons a t ih => exact (insertKey_perm a _).trans (List.Perm.cons a ih)
+theorem sort_sorted (l : List Atom) : Sorted (sortMembers l) := by
+  induction l with
+  | nil => simp [sortMembers, Sorted]
+  | cons a t ih => exact insertKey_sorted a ih
 @[simp] theorem mem_sort {l : List Atom} {a : Atom} : a ∈ sortMembers l ↔ a ∈ l := (sort_perm l).mem_iff
 @[simp] theorem length_sort (l : List Atom) : (sortMembers l).length = l.length := (sort_perm l).length_eq
 theorem nodup_sort {l : List Atom} (h : l.Nodup) : (sortMembers l).Nodup := (sort_perm l).nodup_iff.mpr h
